@@ -8,7 +8,8 @@ From Mos Require Import Gen.PassLoop.
 Section Loop.
   Variables C E U : Type.
   (* emit_tokens(main file) + after_pass: the new context, the errors of this pass (Diagnostics::default() when the
-     pass returned Ok), and whether the pass added nodes to the symbol graph *)
+     pass returned Ok), and whether the pass asks for another one: it added nodes to the symbol graph (`symbols_added`,
+     if the source consults it) or gave some symbol another value (`!ctx.changed.is_empty()`, if the source consults it) *)
   Variable pass : C -> C * E * bool.
   Variable undefined : C -> U.                     (* ctx.undefined *)
   Variable take_undefined : C -> C.                (* std::mem::take(&mut ctx.undefined) leaves the empty set *)
@@ -43,7 +44,8 @@ Section Loop.
         else if rule_same_errors && negb (e_is_empty errors) && e_eqb errors (l_prev_errors s) then
           Stop (ExitSameErrors c1 errors)
         else if e_is_empty errors then
-          if rule_clean_pass && u_is_empty (undefined c1) && (negb clean_needs_no_new_symbols || negb symbols_added) then
+          if rule_clean_pass && u_is_empty (undefined c1)
+             && (negb (clean_needs_no_new_symbols || clean_needs_no_changed_symbols) || negb symbols_added) then
             Stop (ExitClean c1)
           else if rule_same_undefined && (negb same_undefined_needs_nonempty || negb (u_is_empty (undefined c1)))
                   && u_eqb (undefined c1) (l_prev_undefined s) then
